@@ -547,4 +547,55 @@ theorem relocLoop_spec (s : State) (B : BitVec 64) : ∀ (rs : List Reloc) (acc 
           · exact .inr (.inr ⟨hty, by rw [← relocValue_offs s B r hoffs1]; exact hvn, v, ats, slot, h1, h2,
               by rw [← hso ats, ← hso r.srcSec]; exact h3, hd⟩)
 
+/-- **`relocate_to_base`, whole call.** In a state that satisfies the ownership invariant, a successful
+`relocate_to_base(B)` leaves every relocation entry done: its value word designates the specified value (or, for the
+address-table form, the rel32 that reaches the entry's slot). -/
+theorem relocate_spec (s : State) (hr : RInv s) (B : BitVec 64) (s' : State) (n : Nat)
+    (h : relocate s B = (s', .ok, n)) :
+    ∀ re ∈ s.relocs, EntryDone { s with base := B } B s.secs s'.secs re := by
+  unfold relocate at h
+  by_cases hB : B = noBase
+  · simp only [hB, if_true] at h
+    cases h
+  · simp only [hB, if_false] at h
+    try dsimp only at h
+    cases hl : relocLoop { s with base := B } B s.relocs { secs := s.secs, addrTab := s.addrTab, nSlots := 0 } with
+    | mk acc e =>
+      rw [hl] at h
+      cases e
+      case ok =>
+        dsimp only at h
+        have hpre : ∀ re ∈ s.relocs, RInB s.secs re.rgn ∧ RZero s.secs re.rgn ∧ s.addrTabSec ≠ some re.srcSec := by
+          intro re hre
+          have hm : re.rgn ∈ s.relocs.map Reloc.rgn := List.mem_map_of_mem hre
+          exact ⟨hr.inb _ hm, hr.zero _ hm, hr.notab.1 _ hm⟩
+        obtain ⟨_, _, hdone⟩ := relocLoop_spec { s with base := B } B s.relocs
+          { secs := s.secs, addrTab := s.addrTab, nSlots := 0 } acc hr.disj hpre hl
+        intro re hre
+        have hd := hdone re hre
+        -- the tail only resizes the address table section
+        have hfield : field s'.secs re.rgn.val = field acc.secs re.rgn.val := by
+          cases hats : s.addrTabSec with
+          | none =>
+            rw [hats] at h
+            dsimp only at h
+            cases h; rfl
+          | some ats =>
+            rw [hats] at h
+            dsimp only at h
+            cases h
+            have hne : ats ≠ re.srcSec := fun e => (hpre re hre).2.2 (by rw [hats, e])
+            unfold field
+            show ((modifySec acc.secs ats _)[re.srcSec]?).bind _ = _
+            rw [modifySec_get_ne _ _ _ _ hne]
+            rfl
+        have hdec : ∀ v, RDecodes acc.secs re.rgn v → RDecodes s'.secs re.rgn v := by
+          intro v ⟨new, hn, hx⟩
+          exact ⟨new, by rw [hfield]; exact hn, hx⟩
+        rcases hd with h0 | ⟨v, hv, hx⟩ | ⟨hty, hvn, v, ats, slot, h1, h2, h3, hx⟩
+        · exact .inl h0
+        · exact .inr (.inl ⟨v, hv, hdec v hx⟩)
+        · exact .inr (.inr ⟨hty, hvn, v, ats, slot, h1, h2, h3, hdec v hx⟩)
+      all_goals (dsimp only at h; cases h)
+
 end AsmjitVerif.CodeHolder
